@@ -538,9 +538,15 @@ def urls(col, seed, n):
     strat = st.tuples(st.sampled_from(["ws", "wss"]), host, st.one_of(st.none(), st.sampled_from([80, 443, 8080, 9000, 1, 65535])), path, query)
 
     def body(t):
-        scheme, h, port, p, q = t
+        url_one(col, *t)
+    run_hypothesis(col, "url", strat, body, n, seed)
+
+
+def url_one(col, scheme, h, port, p, q):
+    from harness import drv, wsutil
+    if True:
         url = "%s://%s%s%s%s" % (scheme, h, ":%d" % port if port else "", p, q)
-        case = {"check": "url", "url": url}
+        case = {"check": "url", "url": url, "parts": [scheme, h, port, p, q]}
         d = drv.get_driver()
         try:
             side = wsutil.client(d, url=url, opts={"openHandshakeTimeout": 0})
@@ -565,7 +571,6 @@ def urls(col, seed, n):
         finally:
             d.close()
         col.case(port is None or h.startswith("[") or "%" in url, dig=url, cls=["url/" + scheme, "url/" + ("ipv6" if h.startswith("[") else "name")] + (["url/percent-escapes"] if "%" in url else []), sample=url)
-    run_hypothesis(col, "url", strat, body, n, seed)
 
 
 # ---------------------------------------------------------------- (c') connection limit over a history of connections
@@ -784,6 +789,14 @@ def replay(col, case):
             raise Violation("C07|client|exception-escaped|%s|%s" % (c["mut"], exc_key(e) if isinstance(e, Exception) else "loop"), repr(e)[:300], c)
         if c["mut"] not in ("none", "non-utf8-header", "non-utf8-reason") and obs["opened"]:
             raise Violation("C07|client|invalid-response-admitted|" + c["mut"], "", c)
+    elif kind == "url":
+        if "parts" in c:
+            url_one(col, *c["parts"])
+        else:       # older replay files carry the URL only
+            import re as _re
+            m = _re.match(r"^(wss?)://(\[[^\]]+\]|[^:/?]+)(?::(\d+))?([^?]*)(\?.*)?$", c["url"])
+            url_one(col, m.group(1), m.group(2), int(m.group(3)) if m.group(3) else None, m.group(4), m.group(5) or "")
+        return
     elif kind == "connlimit":
         c["ops"] = [tuple(o) for o in c["ops"]]
         connlimit_one(c)
